@@ -10,22 +10,26 @@ namespace Asynkit.CoroState
     and afterwards rests where its own response says (await / yield / exit), and it was neither
     finished nor already running; if it does not resume the body, the phase is unchanged — except
     that a never-started object gets closed by a delivered throw/close. -/
+def Between (p : Phase) : Prop := p ≠ .running ∧ p ≠ .closingInner ∧ p ≠ .throwingInner
+
 def StepOK (k : Kind) (d : DSt) (r : Resp) (x : Res) : Prop :=
-  (x.resumed = true → x.mid.phase = .running ∧ x.after.st.phase = respPhase k r ∧
+  (x.resumed = true → x.mid.phase = .running ∧
+      (x.midCleanup.phase = .running ∨ x.midCleanup.phase = .closingInner ∨ x.midCleanup.phase = .throwingInner) ∧
+      x.after.st.phase = respPhase k r ∧
       d.st.phase ≠ .closed ∧ d.st.phase ≠ .running) ∧
   (x.resumed = false → x.after.st.phase = d.st.phase ∨ (x.after.st.phase = .closed ∧ d.st.phase = .created))
 
 theorem deliver_ok (k : Kind) (d : DSt) (op : Op) (r : Resp) : StepOK k d r (deliver k d op r) := by
   obtain ⟨⟨ph, fl⟩, ac, aw⟩ := d
   cases k <;> cases op <;> cases ph <;>
-    simp [StepOK, deliver, noRun, resumePlain, resumeAg, respPhase] <;>
+    simp [StepOK, deliver, deliverBase, closing, throwing, sendThrows, noRun, resumePlain, resumeAg, respPhase] <;>
     (repeat' split) <;> simp_all
 
 theorem respPhase_ne_created (k : Kind) (r : Resp) : respPhase k r ≠ .created := by
   cases k <;> cases r <;> simp [respPhase]
 
-theorem respPhase_ne_running (k : Kind) (r : Resp) : respPhase k r ≠ .running := by
-  cases k <;> cases r <;> simp [respPhase]
+theorem respPhase_between (k : Kind) (r : Resp) : Between (respPhase k r) := by
+  cases k <;> cases r <;> simp [respPhase, Between]
 
 /-- the state after a history -/
 def runHist (k : Kind) : DSt → List (Op × Resp) → DSt
@@ -39,7 +43,7 @@ def everRan (k : Kind) : DSt → List (Op × Resp) → Bool
 
 /-- invariant of histories: `ran` = some body code has run so far -/
 def Inv (d : DSt) (ran : Bool) : Prop :=
-  d.st.phase ≠ .running ∧ (d.st.phase = .created → ran = false) ∧
+  Between d.st.phase ∧ (d.st.phase = .created → ran = false) ∧
   (ran = false → d.st.phase = .created ∨ d.st.phase = .closed)
 
 theorem inv_step (k : Kind) (d : DSt) (ran : Bool) (h : Inv d ran) (op : Op) (r : Resp) :
@@ -48,9 +52,9 @@ theorem inv_step (k : Kind) (d : DSt) (ran : Bool) (h : Inv d ran) (op : Op) (r 
   obtain ⟨g1, g2⟩ := deliver_ok k d op r
   cases hres : (deliver k d op r).resumed with
   | true =>
-    obtain ⟨_, e2, _, _⟩ := g1 hres
+    obtain ⟨_, _, e2, _, _⟩ := g1 hres
     refine ⟨?_, ?_, ?_⟩
-    · rw [e2]; exact respPhase_ne_running k r
+    · rw [e2]; exact respPhase_between k r
     · intro hc; rw [e2] at hc; exact absurd hc (respPhase_ne_created k r)
     · intro hf; simp at hf
   | false =>
@@ -58,7 +62,7 @@ theorem inv_step (k : Kind) (d : DSt) (ran : Bool) (h : Inv d ran) (op : Op) (r 
     · refine ⟨by rw [e]; exact h1, ?_, ?_⟩
       · intro hc; rw [e] at hc; simpa using h2 hc
       · intro hf; rw [e]; exact h3 (by simpa using hf)
-    · refine ⟨by rw [e]; simp, ?_, ?_⟩
+    · refine ⟨by rw [e]; simp [Between], ?_, ?_⟩
       · intro hc; rw [e] at hc; cases hc
       · intro _; exact .inr e
 
@@ -72,7 +76,7 @@ theorem inv_hist (k : Kind) (h : List (Op × Resp)) (d : DSt) (ran : Bool) (hi :
     simpa [runHist, everRan, Bool.or_assoc] using this
 
 theorem inv_initial : Inv initial false := by
-  simp [Inv, initial]
+  simp [Inv, initial, Between]
 
 /-- kind-specific shape of reachable states: only async generators have the `ag_running` flag,
     `ag_closed` and awaitables; a coroutine never rests at a `yield`. -/
@@ -86,7 +90,7 @@ theorem kindOK_step (k : Kind) (d : DSt) (h : KindOK k d) (op : Op) (r : Resp) :
   obtain ⟨⟨ph, fl⟩, ac, aw⟩ := d
   obtain ⟨h1, h2, h3⟩ := h
   cases k <;> cases op <;> cases ph <;> cases r <;>
-    simp [KindOK, deliver, noRun, resumePlain, resumeAg, respPhase] at h1 h2 h3 ⊢ <;>
+    simp [KindOK, deliver, deliverBase, closing, throwing, sendThrows, noRun, resumePlain, resumeAg, respPhase] at h1 h2 h3 ⊢ <;>
     (repeat' split) <;> simp_all
 
 theorem kindOK_hist (k : Kind) (h : List (Op × Resp)) (d : DSt) (hk : KindOK k d) :
